@@ -47,15 +47,23 @@ def regions_of(schema, j1):
     """Known regions: F21 (empty required / properties beside composition), class-name clashes, nothing+default."""
     regs = set()
 
-    def walk(s):
+    def walk(s, member=False):
+        """member: `s` is a member of a composition list (or the operand of `not`), where an element that
+        serializes to `{}` is dropped by the trivial-member filter on the next parse"""
         if isinstance(s, dict):
             comp = any(k in s for k in ("anyOf", "oneOf", "allOf", "not"))
-            if comp and (s.get("required") == [] or s.get("properties") == {} or s.get("patternProperties") == {} or s.get("dependencies") == {}):
+            if (comp or member) and (s.get("required") == [] or s.get("properties") == {} or s.get("patternProperties") == {} or s.get("dependencies") == {}):
                 regs.add("C06-empty-keyword-beside-composition")
             if s.get("required") == [] or s.get("patternProperties") == {} or s.get("dependencies") == {}:
                 regs.add("C06-empty-keyword-beside-composition")
-            for v in s.values():
-                walk(v)
+            for k, v in s.items():
+                if k in ("anyOf", "oneOf", "allOf") and isinstance(v, list):
+                    for x in v:
+                        walk(x, True)
+                elif k == "not":
+                    walk(v, True)
+                else:
+                    walk(v)
         elif isinstance(s, list):
             for v in s:
                 walk(v)
